@@ -30,6 +30,20 @@ pub open spec fn impl_blocks_kept(path: ItemPath, blocks: Seq<grammar::FunctionB
     &&& forall|k: int| 0 <= k < blocks.len() ==> m.contains_key(#[trigger] spec_join(path, blocks[k].name.0@)) && m[spec_join(path, blocks[k].name.0@)] == blocks[k]
     &&& forall|p: ItemPath| #[trigger] m.contains_key(p) ==> exists|k: int| 0 <= k < blocks.len() && p == spec_join(path, #[trigger] blocks[k].name.0@)
 }
+/// the backend blocks named `name` among the first n of a module's source, in source order, each complete
+/// (C14 "its prologues come first and its epilogues last, each complete and in source order, and text for other
+/// backends is not included": the semantic half; the placement in the file is the backend's, bounded stand-in)
+pub open spec fn spec_backend_group(bs: Seq<grammar::Backend>, n: int, name: String) -> Seq<Backend>
+    decreases n
+{
+    if n <= 0 { Seq::empty() }
+    else if bs[n - 1].name.0 == name { spec_backend_group(bs, n - 1, name).push(Backend { prologue: bs[n - 1].prologue, epilogue: bs[n - 1].epilogue }) }
+    else { spec_backend_group(bs, n - 1, name) }
+}
+pub open spec fn backends_grouped(bs: Seq<grammar::Backend>, n: int, m: Map<String, Vec<Backend>>) -> bool {
+    &&& forall|name: String| #[trigger] m.contains_key(name) <==> spec_backend_group(bs, n, name).len() > 0
+    &&& forall|name: String| #[trigger] m.contains_key(name) ==> m[name]@ == spec_backend_group(bs, n, name)
+}
 /// the semantic extern value of a declaration: name, visibility, unresolved type, and the address attribute
 pub open spec fn extern_value_ok(ev: grammar::ExternValue, out: ExternValue) -> bool {
     &&& out.visibility == vis_of(ev.visibility)
